@@ -30,6 +30,12 @@
 (*   column     [name |-> STRING, ty |-> STRING]                           *)
 (*   Q          sequence of <<currency, fractional digits>>; a currency not *)
 (*              listed has no display precision (quantize is the identity)  *)
+(*   display context  sequence of <<currency, most common number of         *)
+(*              fractional digits, maximum number of fractional digits>>    *)
+(*   formatter  a display context together with ONE precision setting       *)
+(*              ("most_common", the default of build(), or "maximum"): the  *)
+(*              display precision of a currency under a formatter is the    *)
+(*              one of ITS setting (FormatterQ)                             *)
 (***************************************************************************)
 EXTENDS Integers, Sequences, FiniteSets, TLC
 
@@ -75,6 +81,8 @@ AmtTypes == {"Amount", "Position", "Inventory"}
 IsAmt(col) == col.ty \in AmtTypes
 NewName(n, c) == n \o " (" \o c \o ")"
 Range(s) == {s[i] : i \in DOMAIN s}
+(* the display precisions of a formatter built from display context dc for the precision setting prec *)
+FormatterQ(dc, prec) == [i \in DOMAIN dc |-> <<dc[i][1], IF prec = "maximum" THEN dc[i][3] ELSE dc[i][2]>>]
 QOf(q, c) == IF \E i \in DOMAIN q : q[i][1] = c THEN q[CHOOSE i \in DOMAIN q : q[i][1] = c][2] ELSE -1
 
 CurOfCell(cell) == {cell.lots[k].c : k \in DOMAIN cell.lots}
@@ -227,10 +235,20 @@ ExpectCells(cols, rows, fmt, q) ==
 CONSTANTS
     Shapes,       \* the input space: sequence of [cols |-> Seq(column), cells |-> Seq(set of input cells), max |-> rows]
     FmtChoices,   \* subset of {0, 1}: dformat absent / given
-    Q,            \* the formatter's precisions
+    DCtx,         \* the display context the formatter is built from: Seq(<<currency, most common digits, maximum digits>>)
+    Prec,         \* the precision setting the formatter is built for: "most_common" (the default of build()) | "maximum"
     CurSeq,       \* all currencies, in ascending string order (the tie-break of sorted())
     InvNull,      \* "skip" (the code: None skipped in census and converter) | "raise" (as shipped before fix e9990d2)
-    Mut           \* "none" | "cap2" | "asc" | "poscost" | "noquant" | "lot1" | "byname"  (broken mechanisms, non-vacuity)
+    Mut           \* "none" | "cap2" | "asc" | "poscost" | "noquant" | "lot1" | "byname" | "ctxdefault"  (broken
+                  \* mechanisms, non-vacuity)
+
+(* the formatter's precisions: what the property (Part 1) is stated over *)
+Q == FormatterQ(DCtx, Prec)
+(* the mechanism: DisplayFormatter.quantize(number, currency) forwards ITS precision setting to
+   DisplayContext.quantize(number, currency, precision), whose own default is "most_common".  The broken mechanism
+   "ctxdefault" goes to the context without the setting: indistinguishable for a formatter built with the defaults,
+   and for every currency whose most common and maximum numbers of digits agree. *)
+QMech == FormatterQ(DCtx, IF Mut = "ctxdefault" THEN "most_common" ELSE Prec)
 
 VARIABLES
     gen,          \* the shape of the input space the caller draws the table from: [id |-> index in Shapes, max |-> rows]
@@ -325,7 +343,7 @@ StartConversion ==
     /\ pc' = "convert" /\ ri' = 1
     /\ UNCHANGED <<gen, tbl, fmt, ci, cmap, convs, orows, err>>
 
-Quant(x, c) == IF fmt = 1 /\ QOf(Q, c) >= 0 /\ Mut # "noquant" THEN HalfEven(x, QOf(Q, c)) ELSE x
+Quant(x, c) == IF fmt = 1 /\ QOf(QMech, c) >= 0 /\ Mut # "noquant" THEN HalfEven(x, QOf(QMech, c)) ELSE x
 Null == <<>>
 Apply(cv, row) ==
     LET cell == row[cv.idx] IN
